@@ -267,20 +267,22 @@ def rangeStep (start step : Int) : Nat → List Int
   | 0 => []
   | k + 1 => start :: rangeStep (start + step) step k
 
+/-- one bound of `PySlice_AdjustIndices`: default when absent, else wrap a negative value once and clamp -/
+def sliceAdj (n : Nat) (step : Int) (x : Option Int) (dflt : Int) : Int :=
+  match x with
+  | none => dflt
+  | some v =>
+    let v := if v < 0 then v + n else v
+    if v < 0 then (if step < 0 then -1 else 0)
+    else if v ≥ n then (if step < 0 then (n : Int) - 1 else n)
+    else v
+
 /-- `slice.indices(n)` + `range` (CPython `PySlice_AdjustIndices`). -/
 def sliceIndices (n : Nat) (a b c : Option Int) : Except Err (List Nat) :=
   let step := c.getD 1
   if step = 0 then .error .valueError else
-  let adj (x : Option Int) (dflt : Int) : Int :=
-    match x with
-    | none => dflt
-    | some v =>
-      let v := if v < 0 then v + n else v
-      if v < 0 then (if step < 0 then -1 else 0)
-      else if v ≥ n then (if step < 0 then (n : Int) - 1 else n)
-      else v
-  let start := adj a (if step < 0 then (n : Int) - 1 else 0)
-  let stop := adj b (if step < 0 then -1 else n)
+  let start := sliceAdj n step a (if step < 0 then (n : Int) - 1 else 0)
+  let stop := sliceAdj n step b (if step < 0 then -1 else n)
   let len : Int :=
     if step > 0 then (if start < stop then (stop - start - 1) / step + 1 else 0)
     else (if stop < start then (start - stop - 1) / (-step) + 1 else 0)
